@@ -60,6 +60,7 @@ type sdDaemon struct {
 }
 
 func (d *sdDaemon) GetRunningBackgroundWorkers() []string { return d.workers }
+func (d *sdDaemon) Shutdown()                             { d.out.line(map[string]any{"o": "daemon:Shutdown"}) }
 func (d *sdDaemon) ShutdownAndWait() {
 	d.out.line(map[string]any{"o": "daemon:ShutdownAndWait"})
 	d.mu.Lock()
@@ -81,8 +82,8 @@ type sdHandler struct {
 var sdRemaining = regexp.MustCompile(`\(max \d+ seconds\)`)
 
 func (h *sdHandler) Enabled(context.Context, slog.Level) bool { return true }
-func (h *sdHandler) WithAttrs([]slog.Attr) slog.Handler         { return h }
-func (h *sdHandler) WithGroup(string) slog.Handler              { return h }
+func (h *sdHandler) WithAttrs([]slog.Attr) slog.Handler       { return h }
+func (h *sdHandler) WithGroup(string) slog.Handler            { return h }
 func (h *sdHandler) Handle(_ context.Context, r slog.Record) error {
 	msg := r.Message
 	if strings.HasPrefix(msg, "self-shutdown log can't be opened") {
